@@ -40,6 +40,8 @@ def catalog():
     s.sub("in_", Op("+", "off", 2), 2, "Inner", args=[R("kk")])
     s.virt("iv", R("in_", "v"))
     s.virt("lim", Op("-", "off", 3), requires=Op(">=", THIS, -2))
+    # $present of a nested path: the outer field is unconditional, the member is conditional
+    s.virt("pw", Op("?:", Pres("in_", "w"), 200, "off"))
     ps.append(p)
 
     # P4: enum fields and parameters, ?: and $max, $present
